@@ -9,6 +9,8 @@ rows = []
 for p in sorted(glob.glob(os.path.join(VERIF, 'seeded', '*', '*', 'meta.json'))):
     m = json.load(open(p))
     ev = m.get('evaluation', {})
+    if ev.get('kind') == 'harmless':
+        continue
     c = ev.get('check_on_changed', {})
     nofail = any('no-failing' in l for l in c.get('lines', []))
     what = ' '.join(str(m.get('what', '')).split())[:170]
@@ -19,3 +21,16 @@ for p in sorted(glob.glob(os.path.join(VERIF, 'seeded', '*', '*', 'meta.json')))
 print('| id | change | needs | result of `./check` on the changed tree | broken obligation |')
 print('|---|---|---|---|---|')
 print('\n'.join(rows))
+
+# ---- behaviour-preserving refactorings (variants h1/h2): the ideal outcome is a quiet check
+hrows = []
+for p in sorted(glob.glob(os.path.join(VERIF, 'seeded', '*', 'h*', 'meta.json'))):
+    m = json.load(open(p))
+    ev = m.get('evaluation', {})
+    what = ' '.join(str(m.get('what', '')).split())[:200]
+    hrows.append(f"| {ev.get('property')}/{ev.get('variant')} | {what} | {ev.get('first_outcome', ev.get('outcome'))} | {ev.get('outcome')} |")
+if hrows:
+    print()
+    print('| id | behaviour-preserving rewrite | first run | after generalising the translators |')
+    print('|---|---|---|---|')
+    print('\n'.join(hrows))
